@@ -22,6 +22,7 @@ import (
 
 	"github.com/conduitio/conduit/pkg/foundation/cerrors"
 	"github.com/conduitio/conduit/pkg/pipeline"
+	"github.com/conduitio/conduit/pkg/provisioning"
 	"github.com/conduitio/conduit/pkg/provisioning/config"
 	"github.com/conduitio/conduit/pkg/provisioning/config/yaml"
 )
@@ -146,7 +147,31 @@ func (w *Watcher) parseFile(ctx context.Context, path string) (pipelines []confi
 		}
 		out = append(out, enriched)
 	}
-	return out, false
+	return w.dropDuplicatedIDs(ctx, path, out), false
+}
+
+// dropDuplicatedIDs reports and excludes every pipeline whose ID is defined
+// more than once in the file. Such a file is ambiguous: start-up provisioning
+// skips all contenders (provisioning.ErrDuplicatedPipelineID) and `conduit
+// pipelines validate` rejects it, so dev must not apply them one after the
+// other to the same (possibly running) pipeline either — that would restart
+// it once per document on every save and never converge.
+func (w *Watcher) dropDuplicatedIDs(ctx context.Context, path string, pipelines []config.Pipeline) []config.Pipeline {
+	count := make(map[string]int, len(pipelines))
+	for _, p := range pipelines {
+		count[p.ID]++
+	}
+	out := pipelines[:0]
+	for _, p := range pipelines {
+		switch {
+		case count[p.ID] == 1:
+			out = append(out, p)
+		case count[p.ID] > 1:
+			w.reportRawError(ctx, path, p.ID, cerrors.Errorf("%d pipelines with ID %q in %q will be skipped: %w", count[p.ID], p.ID, path, provisioning.ErrDuplicatedPipelineID))
+			count[p.ID] = 0 // report each duplicated ID once
+		}
+	}
+	return out
 }
 
 // applyPipeline runs the Plan -> ApplyPlanLive -> ensure-running flow for
